@@ -1276,18 +1276,27 @@ func rangeDominates(c *Ctx, r *RuleResult, fn *ssa.Function, name string) {
 func init() {
 	register(&propDef{
 		id:          "C07",
-		explanation: "Decides that the four hand-written copies of the size header N(n) (Graph6Encode, Sparse6Encode, Graph6Decode, Sparse6Decode) agree with the published format and hence with each other: HDR extracts, per encoder branch `n <= T`, the constant-index stores (marker bytes 126, sextets byte((n>>SH)&63)+63, direct byte n+63) and the allocated header length, and per decoder the three forms of n as sums of (s[c]-63)<<SH with the data offset that follows, and compares them with the format's thresholds 62 / 258047 / 68719476735, shifts 12,6,0 and 30..0, marker positions and the sparse6 ':' shift; EDGEBYTE checks that no codec uses the numeric value of an adjacency byte of the graph it is given (any non-zero byte is an edge, so packing the bytes directly would emit bytes outside the format for such graphs); SEXTET checks the bit-packing constants (6 bits per byte, top bit 5, offset 63, valid range [63,126] established before any byte is decoded, k = 64 - LeadingZeros64(n-1) on both sparse6 sides). The long-header branches are never executed by the tests. Does not decide round-trip equality.",
+		explanation: "Decides that the four hand-written copies of the size header N(n) (Graph6Encode, Sparse6Encode, Graph6Decode, Sparse6Decode) agree with the published format and hence with each other: HDR extracts, per encoder branch `n <= T`, the constant-index stores (marker bytes 126, sextets byte((n>>SH)&63)+63, direct byte n+63) and the allocated header length, and per decoder the three forms of n as sums of (s[c]-63)<<SH with the data offset that follows, and compares them with the format's thresholds 62 / 258047 / 68719476735, shifts 12,6,0 and 30..0, marker positions and the sparse6 ':' shift; EDGEBYTE checks that no codec uses the numeric value of an adjacency byte of the graph it is given (any non-zero byte is an edge, so packing the bytes directly would emit bytes outside the format for such graphs); SEXTET checks the bit-packing constants (6 bits per byte, top bit 5, offset 63, valid range [63,126] established before any byte is decoded, k = 64 - LeadingZeros64(n-1) on both sparse6 sides). NARROW requires every narrowing integer conversion in the codecs to be of a value proved to fit (a size byte n+63 without its n <= 62 guard is reported), READONLY that the four encoders do not write the graph they encode (PruferEncode works on Degrees(): that must be a copy). The long-header branches are never executed by the tests. Does not decide round-trip equality.",
 		notDecided:  []string{"decode(encode(g)) == g for all graphs", "sparse6 padding special case, end-of-stream handling (repaired under C08, not detected here)", "Multicode", "Pruefer bijection"},
-		assumptions: []string{"format definition: https://users.cecs.anu.edu.au/~bdm/data/formats.txt (constants transcribed in checker/p_c07.go)"},
+		assumptions: []string{"format definition: https://users.cecs.anu.edu.au/~bdm/data/formats.txt (constants transcribed in checker/p_c07.go)", "Graph.N() and Graph.M() are not negative (NARROW)"},
 		run: func(c *Ctx, tier string) []*RuleResult {
 			h := &RuleResult{Rule: "HDR", Doc: "size header N(n): thresholds, marker bytes, sextet shifts/mask/offset and lengths agree with the format in all four codecs", MinInst: 16}
 			ruleHdrEncoder(c, h, "graph.Graph6Encode", 0, "")
 			ruleHdrEncoder(c, h, "graph.Sparse6Encode", 1, "58")
 			ruleHdrDecoder(c, h, "graph.Graph6Decode")
 			ruleHdrDecoder(c, h, "graph.Sparse6Decode")
-			ds := ruleDegSync(c, inFiles("encoding.go"))
+			codecFiles := filesOf(c, "graph.Graph6Decode", "graph.Graph6Encode", "graph.Sparse6Decode", "graph.Sparse6Encode", "graph.MulticodeEncode", "graph.MulticodeDecode", "graph.MulticodeDecodeMultiple", "graph.PruferEncode", "graph.PruferDecode")
+			ds := ruleDegSync(c, codecFiles)
+			// a size or vertex number written as one byte must be proved to fit (byte(n+63) without n <= 62)
+			nwc := ruleNarrowWith(c, codecFiles, nonNegativeOrder)
+			nwc.Doc = "every conversion of an integer to a narrower integer type in the codecs is of a value proved to fit (a size byte n+63 needs its n <= 62 guard)"
+			// encoders only read the graph they are given
+			roc := &RuleResult{Rule: "READONLY", Doc: "the encoders do not write the graph they encode", MinInst: 4}
+			for _, n := range []string{"graph.Graph6Encode", "graph.Sparse6Encode", "graph.MulticodeEncode", "graph.PruferEncode"} {
+				noWrites(c, roc, c.Fn(n), []int{0}, "the graph being encoded")
+			}
 			ds.MinInst = 0
-			return []*RuleResult{h, ruleSextet(c), ruleEdgeByte(c, "graph"), ds, ruleUwrap(c, inFiles("encoding.go")), ruleSubword(c, inFiles("encoding.go"))}
+			return []*RuleResult{h, ruleSextet(c), ruleEdgeByte(c, "graph"), ds, ruleUwrap(c, codecFiles), ruleSubword(c, codecFiles), nwc, roc}
 		},
 		controls: func(ctl *Ctx) []*RuleResult {
 			h := &RuleResult{Rule: "HDR"}
